@@ -48,13 +48,12 @@ func c18Gating(r *an.Run, m *runModel) {
 		return
 	}
 	var calls []*ssa.Call
-	for _, c := range an.Calls(f) {
-		if an.StaticCallee(c) == pred {
-			calls = append(calls, c.(*ssa.Call))
-		}
+	gate, inner, helper := generatedGate(r, m)
+	if gate != nil {
+		calls = append(calls, gate)
 	}
 	for _, g := range r.P.ModuleFuncs() {
-		if g == f {
+		if g == f || g == helper {
 			continue
 		}
 		for _, c := range an.Calls(g) {
@@ -67,9 +66,34 @@ func c18Gating(r *an.Run, m *runModel) {
 		return
 	}
 	call := calls[0]
-	r.Check(call.Call.Args[0] == m.parsed, short(f)+"|predicate-arg", call.Pos(), "the predicate inspects the file that was just parsed")
 	flagOff := m.hyp(map[string]bool{"SkipGenerated": false}, nil)
-	r.Check(m.unreachableUnder(call.Block(), flagOff), short(f)+"|only-with-flag", call.Pos(), "the predicate is evaluated only under --skip-generated (without the flag the markers have no effect)")
+	if helper == nil {
+		r.Check(call.Call.Args[0] == m.parsed, short(f)+"|predicate-arg", call.Pos(), "the predicate inspects the file that was just parsed")
+		r.Check(m.unreachableUnder(call.Block(), flagOff), short(f)+"|only-with-flag", call.Pos(), "the predicate is evaluated only under --skip-generated (without the flag the markers have no effect)")
+	} else {
+		// the decision lives in an effect-free helper: it is handed the parsed file, asks the predicate about
+		// exactly that file, asks it only under the flag, and answers what the predicate answered
+		arg := an.Unwrap(inner.Call.Args[0])
+		prm, isParam := arg.(*ssa.Parameter)
+		handed := false
+		if isParam {
+			for i, q := range helper.Params {
+				if q == prm && i < len(an.CallArgs(call)) && an.Unwrap(an.CallArgs(call)[i]) == m.parsed {
+					handed = true
+				}
+			}
+		}
+		r.Check(handed, short(f)+"|predicate-arg", call.Pos(), "the predicate inspects the file that was just parsed (handed to %s)", short(helper))
+		r.Check(!an.ReachUnder(helper.Blocks[0], flagOff, nil)[inner.Block()], short(f)+"|only-with-flag", inner.Pos(), "the predicate is evaluated only under --skip-generated (without the flag the markers have no effect)")
+		agrees := true
+		for _, want := range []bool{true, false} {
+			h := m.hyp(map[string]bool{"SkipGenerated": true}, map[ssa.Value]bool{ssa.Value(inner): want})
+			if got, known := an.ResultUnder(helper, h, 0); !known || got != want {
+				agrees = false
+			}
+		}
+		r.Check(agrees, short(helper)+"|answers-the-predicate", helper.Pos(), "under --skip-generated %s answers exactly what the marker predicate answers for the file", short(helper))
+	}
 	// skip arm: only a log call, then next file
 	brs := an.BranchesOn(f, call)
 	if !r.Check(len(brs) > 0, short(f)+"|branch", call.Pos(), "Run branches on the predicate's result") {
@@ -92,7 +116,12 @@ func c18Gating(r *an.Run, m *runModel) {
 	cont := m.iterationFrom(call, edgesWhen(brs, true))
 	r.Check(cont[m.apply.Block()], short(f)+"|not-generated-continues", call.Pos(), "a file that is not generated is processed exactly as without the flag (reaches Apply)")
 	off := m.iterationUnder(m.loadSite, flagOff)
-	r.Check(off[m.apply.Block()] && !off[call.Block()], short(f)+"|flag-off-continues", call.Pos(), "without the flag the pipeline goes straight to Apply without evaluating the predicate")
+	if helper == nil {
+		r.Check(off[m.apply.Block()] && !off[call.Block()], short(f)+"|flag-off-continues", call.Pos(), "without the flag the pipeline goes straight to Apply without evaluating the predicate")
+	} else {
+		skipArm := call.Block().Succs[brs[0].EdgeWhen(true)]
+		r.Check(off[m.apply.Block()] && !off[skipArm], short(f)+"|flag-off-continues", call.Pos(), "without the flag the pipeline goes straight to Apply: the skip arm cannot be taken")
+	}
 	r.Count("predicate call sites", len(calls))
 }
 
@@ -271,4 +300,68 @@ func reachableVia(b *ssa.BasicBlock, edges []an.CtrlEdge) bool {
 		starts = append(starts, e.Block.Succs[e.Succ])
 	}
 	return an.Reach(starts, nil)[b]
+}
+
+// generatedGate finds where Run decides to skip a generated file: the call
+// to the marker predicate itself, or a call to a private, effect-free helper
+// that is handed the parsed file and calls the predicate on it (typically
+// `opts.SkipGenerated && checkGeneratedCode(f)` as a method of the options).
+// gate is the call in Run whose result is branched on, inner the predicate
+// call (== gate when there is no helper) and helper the function in between.
+func generatedGate(r *an.Run, m *runModel) (gate, inner *ssa.Call, helper *ssa.Function) {
+	pred := r.P.Func(mainP, "checkGeneratedCode")
+	if pred == nil {
+		return nil, nil, nil
+	}
+	for _, c := range an.Calls(m.run) {
+		call, ok := c.(*ssa.Call)
+		if !ok {
+			continue
+		}
+		sc := an.StaticCallee(c)
+		if sc == pred {
+			return call, call, nil
+		}
+		if sc == nil || !an.InModule(sc) || sc.Blocks == nil || !m.loop.Loop.Blocks[c.Block()] || !effectFreeAround(sc, pred) {
+			continue
+		}
+		for _, ic := range an.Calls(sc) {
+			if icall, ok := ic.(*ssa.Call); ok && an.StaticCallee(ic) == pred {
+				gate, inner, helper = call, icall, sc
+			}
+		}
+	}
+	return gate, inner, helper
+}
+
+// effectFreeAround: g has a single boolean result, stores nothing, starts
+// nothing, and calls only builtins, effect-free predicates and the function
+// `around`.
+func effectFreeAround(g, around *ssa.Function) bool {
+	res := g.Signature.Results()
+	if res.Len() != 1 || an.ShortType(res.At(0).Type()) != "bool" {
+		return false
+	}
+	for _, b := range g.Blocks {
+		for _, in := range b.Instrs {
+			switch x := in.(type) {
+			case *ssa.Store:
+				if _, local := x.Addr.(*ssa.Alloc); !local {
+					return false
+				}
+			case *ssa.MapUpdate, *ssa.Go, *ssa.Defer, *ssa.Send:
+				return false
+			case ssa.CallInstruction:
+				sc := an.StaticCallee(x)
+				switch {
+				case sc == around:
+				case strings.HasPrefix(an.CalleeName(x), "builtin:"):
+				case sc != nil && an.IsPurePredicate(sc, 0):
+				default:
+					return false
+				}
+			}
+		}
+	}
+	return true
 }
